@@ -34,7 +34,7 @@ def gen(rng, n):
             good.append({'name': name, 'full': full, 'date': date})
         nodes_bad, kinds = [], []
         for k in range(rng.randint(1, 4)):
-            mk = rng.choice(scen.MALFORMED + ['dotdot_trashinfo', 'undated_same_path', 'baddate_same_path', 'tz_date', 'tz_date'])
+            mk = rng.choice(scen.MALFORMED + ['dotdot_trashinfo', 'undated_same_path', 'baddate_same_path', 'tz_date', 'tz_date', 'suffix_twin', 'suffix_twin'])
             kinds.append(mk)
             if mk in ('undated_same_path', 'baddate_same_path'):
                 # shares its Path with a well-formed entry: sort keys tie on the path
@@ -45,6 +45,11 @@ def gen(rng, n):
             elif mk == 'tz_date':
                 nodes_bad += [['f', td + '/info/tz%d.trashinfo' % k, '[Trash Info]\nPath=/home/u/tz%d\nDeletionDate=2001-01-01T00:00:00%s\n' % (k, rng.choice(['+01:00', 'Z', '.5', '-0500']))],
                               ['f', td + '/files/tz%d' % k, 'p']]
+            elif mk == 'suffix_twin':
+                # an info file WITHOUT payload named <name of a well-formed entry>.trashinfo.trashinfo (old, matched by '*'): handling it
+                # must not touch files/<name>, which belongs to the well-formed entry
+                g = rng.choice(good)
+                nodes_bad.append(['f', td + '/info/' + g['name'] + '.trashinfo.trashinfo', scen.TI % ('/home/u/twin%d' % k, '2001-01-01T00:00:00')])
             elif mk == 'dotdot_trashinfo':
                 nodes_bad.append(['f', td + '/info/' + rng.choice(['..trashinfo', '...trashinfo']), scen.TI % ('/home/u/dd', '2001-01-01T00:00:00')])
             else:
